@@ -131,6 +131,27 @@ specs["C17"] = {"property": "C17", "explanation": AUX_EXPL + " For C17 the no-fa
     "assumptions": COMMON_ASSUME + ["non-overlapping test-recording requests, no storage faults, no bad frames (the property's quantifier)", "throttling independence: the continuous sink is handed to NewMotionProcessor unwrapped (wiring job in package main, when present)"],
     "outside_claim": MP_OUT[:4] + ["deleteExcessRecordings / statfs (I/O)", "SetAsConstantRecorder directory handling (I/O)"], "stubs_doc": MP_STUBS, "jobs": aux_jobs(0)}
 
+def det_job(name, entry, grid, gridt=None, tier="", uf=False, solvers=None, timeout=120):
+    j = {"name": name, "pkg": "motion", "harness": "motion", "entry": entry, "grid": grid, "noops": LOG_NOOP, "tier": tier, "float_uf": uf, "timeout": timeout}
+    if gridt:
+        j["grid_thorough"] = gridt
+    if solvers:
+        j["solvers"] = solvers
+    return j
+
+c07 = []
+shapes = [(1, 1, 0), (2, 2, 0), (3, 3, 1), (3, 3, 0), (4, 3, 1), (4, 4, 1), (4, 4, 0), (5, 5, 2), (5, 5, 1)]
+for i, (W, H, e) in enumerate(shapes):
+    quick = (W, H, e) in [(1, 1, 0), (2, 2, 0), (3, 3, 1), (3, 3, 0)]
+    gq = {"W": [W], "H": [H], "e": [e], "g": [1, 2], "F": [5], "R": [-1, 2], "M": [-1]}
+    gt = {"W": [W], "H": [H], "e": [e], "g": [1, 2, 3], "F": [7], "R": [-1, 1, 3], "M": [-1]}
+    c07.append(det_job(f"bmc_{W}x{H}e{e}", "ZZ_C07_bmc", gq, gt, "" if quick else "thorough"))
+specs["C07"] = {"property": "C07",
+    "explanation": "Bounded symbolic verification of motion/motion.go (NewMotionDetector, Detect, pixelsChanged, setFloor, absDiffFrames, warmerDiffFrames, absDiff, warmerDiff, hasMotion, CountPixels, CountPixelsTwoCompare, isAffectedByFFC, Reset) and both internal FrameLoops, differential against a reference model written from the statement (plain frame list; compare frame max(t-gap, first); per-pixel predicate; one-/two-diff counting; interior only). All pixel values (0..65535) of all F frames, temp-thresh, delta-thresh, count-thresh >= 1 and both mode flags are symbolic in one query per frame, so every boundary (= vs >) is inside the quantifier; an optional camera Reset before frame R. Helper lemmas (the just-written diff frame matches the per-pixel predicate) are proved first and then assumed; if one is not proved the instance is re-run without them.",
+    "assumptions": COMMON_ASSUME + ["FFC-free streams (TimeOn-LastFFCTime >= 10 s on every frame): the property's quantifier", "Verbose=false (debug tracker off)"],
+    "outside_claim": ["resolutions above 5x5, frame-compare-gap > 3 and streams longer than F = gap+4 frames (ring fill, first wrap and mark expiry are inside)", "Verbose=true debug tracker (float averaging in logging only)"],
+    "stubs_doc": ["log.Print* -> no-op"], "jobs": c07}
+
 os.makedirs("/verif/checks", exist_ok=True)
 for pid, sp in specs.items():
     json.dump(sp, open(f"/verif/checks/{pid}.json", "w"), indent=1)
